@@ -110,6 +110,7 @@ type Engine struct {
 	funIDs      map[string]uint32
 	zv          *zoneView
 	summaries   map[string]bool
+	jdocs       []*jdoc // abstract JSON documents (stubs_jsondoc.go)
 	lazySpawn   bool // verifLazySpawn: goroutines start when the main thread blocks
 	timedSleeps bool // time.Sleep in a goroutine parks it on a timer (verifTimedSleeps)
 	zoneTable   []ZoneRow
